@@ -29,7 +29,8 @@ type Value interface{}
 type FloatVal struct {
 	F     float64
 	Known bool
-	T     *sym.Term // FP-sorted term in FP-mode harnesses (nil otherwise)
+	T     *sym.Term // exact dyadic model: value = T/Den (fp mode), nil otherwise
+	Den   *big.Int
 }
 
 type SymStr struct {
